@@ -5,6 +5,7 @@ Property theorems over the exact-rational instance of the colour model
 of the code switched off, `CQuirks.asis` the code as it is.
 -/
 import RsassModel.Color.LemmasWF
+import RsassModel.Color.LemmasRT
 namespace C31
 open Color
 
@@ -115,17 +116,33 @@ that evaluates (out-of-range arguments are clamped, not rejected) -/
 example : ∃ c, (CExpr.hsl ⟨-400, .none⟩ ⟨150, .pct⟩ ⟨-20, .pct⟩ (some ⟨3, .none⟩) : CExpr Rat).eval
     CQuirks.spec = some c := ⟨_, rfl⟩
 
-/-! ## Round trips
+/-! ## Round trips -/
 
-STATED, NOT YET PROVED (kept visible; see notes/C31.md):
-  rgb_hsl_rgb : ∀ c : Rgba Rat, c.WF →
-      let c' := (c.toHsla CQuirks.spec).toRgba;  c'.r = c.r ∧ c'.g = c.g ∧ c'.b = c.b ∧ c'.a = c.a
+/-- FULL STATEMENT (rgb → hsl → rgb): for every rgba value whose channels are in range
+(`0 ≤ r, g, b ≤ 255`, `0 ≤ a ≤ 1`, exact rationals — nothing else is assumed), converting to hsl
+(`Rgba.toHsla`, specified `max_min_largest`) and back (`Hsla.toRgba`) gives exactly the same four
+channels.  Proof: `Color/LemmasRT.lean` — `sector` (six hue sectors of `max_min_largest`, with the
+ties at the sector borders), `hue2rgb_tri` (the piecewise `hue2rgb` as one triangle profile),
+`hsl_back` (q = max, p = min for all three branches of the lightness/saturation formulas). -/
+theorem rgb_hsl_rgb (c : Rgba Rat) (h : c.WF) :
+    (c.toHsla CQuirks.spec).toRgba.r = c.r ∧ (c.toHsla CQuirks.spec).toRgba.g = c.g ∧
+    (c.toHsla CQuirks.spec).toRgba.b = c.b ∧ (c.toHsla CQuirks.spec).toRgba.a = c.a :=
+  Rgba.hsl_roundtrip c h
+
+/-- the same at the level of colour values: the hsl form of an rgba colour is `==` to it -/
+theorem rgb_hsl_rgb_eqv (c : Rgba Rat) (h : c.WF) :
+    (Col.hsla (c.toHsla CQuirks.spec)).eqv CQuirks.spec (Col.rgba c) = true :=
+  eqv_hsla_of_rgba c h (c.toHsla CQuirks.spec).fmt
+
+example : (Rgba.fromBytes 255 255 0 : Rgba Rat).WF := Rgba.fromBytes_wf 255 255 0 (by omega) (by omega) (by omega)
+
+/- STATED, NOT YET PROVED (kept visible; see notes/C31.md):
   rgb_hwb_rgb : ∀ c : Rgba Rat, c.WF →
       let c' := (c.toHwba CQuirks.spec).toRgba CQuirks.spec;  c'.r = c.r ∧ c'.g = c.g ∧ c'.b = c.b ∧ c'.a = c.a
-What is missing: the sector-by-sector case analysis of `max_min_largest` × `hue2rgb`
-(4 hue sectors × 3 channels × boundary sub-cases).  The statements are exercised on the
-implementation by the `c31rebuild` cases (every run) and the refutation `maxTie_refutes` below
-shows the instance of the statement that fails for the code as written. -/
+Plan (not finished in time): `Hwba.toRgba` is `Hwba.toHsla` followed by `Hsla.toRgba`; show
+`(c.toHwba).toHsla = c.toHsla` field by field (w = min/255, b = 1 − max/255 ⇒ l = (max+min)/2,
+s = (d/2) / min(l, 1−l) = d / (mm or 2−mm), hue re-normalised by `degMod_id`) and conclude with
+`rgb_hsl_rgb`.  The statement is exercised on the implementation by the `c31rebuild` cases. -/
 
 /-! ## Equality -/
 
